@@ -68,6 +68,29 @@ def fault_programs(rng, w, n):
                     i = rng.choice([0, 1, 2, 3, -1, 4, 100] + vals)
                     nn = rng.choice([3, 3, 1, 4, 0])
                     out.append((src, [str(i), str(nn)], 'index_%s_%s' % (el, sc)))
+    # two things can go wrong in one statement, or a fault competes with a side effect: which happens first is part of "first"
+    noisy = 'int noisy(int a, int b) { write("N"); return a / b; }\n'
+    two = [
+        ('int_elem_call', noisy + 'empty @is_you(int i, int b) { write("pre "); int[] x = [1, 2, 3]; x[i] = noisy(6, b); write(x[0]); write(" post"); }'),
+        ('int_elem_div', 'empty @is_you(int i, int b) { write("pre "); int[] x = [1, 2, 3]; x[i] = 6 / b; write(x[0]); write(" post"); }'),
+        ('byte_elem_call', noisy + 'empty @is_you(int i, int b) { write("pre "); byte[] x = [1, 2, 3]; x[i] = noisy(6, b) is byte; write(x[0] is int); write(" post"); }'),
+        ('bool_elem_call', noisy + 'empty @is_you(int i, int b) { write("pre "); bool[] x = [true, false, true]; x[i] = noisy(6, b) > 2; write(x[0]); write(" post"); }'),
+        ('global_elem_call', 'int[] x = [1, 2, 3];\n' + noisy + 'empty @is_you(int i, int b) { write("pre "); x[i] = noisy(6, b); write(x[0]); write(" post"); }'),
+        ('vla_elem_call', noisy + 'empty @is_you(int i, int b) { write("pre "); int x[3]; x[i] = noisy(6, b); write(x[0]); write(" post"); }'),
+        ('compound_elem_call', noisy + 'empty @is_you(int i, int b) { write("pre "); int[] x = [1, 2, 3]; x[i] += noisy(6, b); write(x[0]); write(" post"); }'),
+        ('compound_elem_div', 'empty @is_you(int i, int b) { write("pre "); int[] x = [1, 2, 3]; x[i] %= b; write(x[0]); write(" post"); }'),
+        ('index_is_call', noisy + 'empty @is_you(int i, int b) { write("pre "); int[] x = [1, 2, 3]; x[noisy(i, 1)] = noisy(6, b); write(x[0]); write(" post"); }'),
+        ('read_then_div', 'empty @is_you(int i, int b) { write("pre "); int[] x = [1, 2, 3]; write(x[i] / b); write(" post"); }'),
+        ('div_then_read', 'empty @is_you(int i, int b) { write("pre "); int[] x = [1, 2, 3]; write(6 / b + x[i]); write(" post"); }'),
+        ('args_order', noisy + 'empty g(int p, int q) { write(p + q); }\nempty @is_you(int i, int b) { write("pre "); int[] x = [1, 2, 3]; g(x[i], noisy(6, b)); write(" post"); }'),
+        ('args_order2', noisy + 'empty g(int p, int q) { write(p + q); }\nempty @is_you(int i, int b) { write("pre "); int[] x = [1, 2, 3]; g(noisy(6, b), x[i]); write(" post"); }'),
+        ('string_elem_call', noisy + 'empty @is_you(int i, int b) { write("pre "); const string[] x = ["a", "b", "c"]; string[] y = ["p", "q", "r"]; y[i] = x[noisy(i, b)]; write(y[0]); write(" post"); }'),
+        ('vla_len_call', noisy + 'empty @is_you(int i, int b) { write("pre "); int x[noisy(i, b)]; write(x.length); write(" post"); }'),
+    ]
+    for name, src in two:
+        for i in (0, 2, 3, -1, 7):
+            for b in (0, 1, 2):
+                out.append((src, [str(i), str(b)], 'two_' + name))
     # strings
     for src in ('empty @is_you(string s, int i) { write("pre "); write(s[i] is int); write(" post"); }',
                 'string g = "hey"; empty @is_you(string s, int i) { write("pre "); write(g[i] is int); write("abc"[i]); write(" post"); }',
@@ -96,7 +119,11 @@ def fault_programs(rng, w, n):
             for v in (0, 1, 2, 3, 5):
                 out.append((src, [str(v)], 'nonlocal_preempt'))
     rng.shuffle(out)
-    return out[:n] if n < len(out) else out
+    if n >= len(out): return out
+    # the ordering family is always represented by the out-of-range index with a zero and a non-zero divisor, and the in-range control
+    must = [o for o in out if o[2].startswith('two_') and o[1][0] in ('3', '0') and o[1][1] in ('0', '1')]
+    rest = [o for o in out if o not in must]
+    return must + rest[:max(0, n - len(must))]
 
 
 # ----------------------------------------------------------------------------- C08 scope stress
@@ -173,7 +200,13 @@ def operator_programs(w):
     three(lambda x, y: '+%s' % x, 'int', 'pos')
     three(lambda x, y: '(%s != 0) and (%s != 0)' % (x, y), 'bool', 'and')
     three(lambda x, y: '(%s != 0) or (%s != 0)' % (x, y), 'bool', 'or')
-    three(lambda x, y: 'not (%s < %s)' % (x, y), 'bool', 'not')
+    for op in ('==', '!=', '<', '<=', '>', '>='):
+        # the negation of every comparison, in value, branch and defeat position (a lowering may rewrite `not (x op y)`)
+        three(lambda x, y, op=op: 'not (%s %s %s)' % (x, op, y), 'bool', 'not' + op)
+    three(lambda x, y: 'not ((%s > 0) and (%s > 0))' % (x, y), 'bool', 'notand')
+    three(lambda x, y: 'not ((%s > 0) or (%s > 0))' % (x, y), 'bool', 'notor')
+    three(lambda x, y: 'not (not (%s <= %s))' % (x, y), 'bool', 'notnot')
+    three(lambda x, y: '(%s >= %s) == (%s <= %s)' % (x, y, y, x), 'bool', 'cmpeq')
     three(lambda x, y: '(%s is bool) == (%s is bool)' % (x, y), 'bool', 'booleq')
     three(lambda x, y: '(%s is bool) != (%s is bool)' % (x, y), 'bool', 'boolne')
     three(lambda x, y: '%s is byte' % x, 'byte', 'int2byte')
@@ -368,4 +401,34 @@ def try_exit_programs():
         src = defs + 'empty @is_you(int x) {\n    try { write(\'a\'); if (x == 0) { return; } !chk(x); write(\'b\'); return; } %s { write(\'H\'); }\n    writeln(\'z\');\n}\n' % hk
         for x in ('0', '2', '5'):
             out.append(('main_%s_ret' % kind, src, [x]))
+    return out
+
+
+def preempt_programs():
+    """(tag, src, args): `preempt` in every position it is allowed in - directly in a try body, in a defeat function called from
+    a try body, in a defeat function called from another defeat function - under try/stop and try/undo, with a preempt body
+    that is observable, where skipping the preempt makes defeat unavoidable or not; the argument decides.  (A preemptive defeat
+    function that returns before the defeat faults with nonlocal_preempt in checked builds - those runs are for the fault
+    checks; the others must behave the same in both builds.)"""
+    out = []
+    fns = {
+        'direct': ('', 'preempt { write(\'P\'); x -= 2; } !truth_is_defeat(x > 3); write(\'k\');'),
+        'in_dfn': ('empty !guard(int x) { preempt { write(\'P\'); x -= 2; } !truth_is_defeat(x > 3); write(\'g\'); }\n', '!guard(x); write(\'k\');'),
+        'nested_dfn': ('empty !inner(int x) { preempt { write(\'Q\'); x -= 1; } !truth_is_defeat(x > 4); }\n'
+                       'empty !guard(int x) { write(\'i\'); !inner(x); write(\'o\'); }\n', '!guard(x); write(\'k\');'),
+        'dfn_twice': ('empty !guard(int x) { preempt { write(\'P\'); x -= 2; } !truth_is_defeat(x > 3); }\n', '!guard(x - 2); write(\'m\'); !guard(x); write(\'k\');'),
+        'dfn_loop': ('empty !guard(int x) { for (int i = 0; i < 2; i += 1) { preempt { write(\'P\'); x -= 1; } } !truth_is_defeat(x > 3); }\n', '!guard(x); write(\'k\');'),
+        'value_dfn': ('int !pick(int x) { preempt { write(\'P\'); x = 0; } !truth_is_defeat(x > 5); return x + 1; }\n', 'int y = !pick(x); write(y);'),
+        'preempt_only_helps': ('empty !guard(int x) { preempt { write(\'P\'); x = 0; } !truth_is_defeat(x > 3); write(\'g\'); }\n', '!guard(x); write(\'k\');'),
+    }
+    for hk in ('stop', 'undo'):
+        for tag, (pre, body) in fns.items():
+            for where in ('main', 'fn'):
+                if where == 'main':
+                    src = pre + 'empty @is_you(int x) {\n    write(\'s\');\n    try { write(\'t\'); %s } %s { write(\'H\'); }\n    writeln(\'e\');\n}\n' % (body, hk)
+                else:
+                    src = (pre + 'empty @run(int x) {\n    try { write(\'t\'); %s } %s { write(\'H\'); }\n    write(\'r\');\n}\n'
+                           'empty @is_you(int x) {\n    @run(x);\n    @run(1);\n    @run(x + 1);\n    writeln(\'e\');\n}\n' % (body, hk))
+                for x in ('1', '4', '5', '6', '9'):
+                    out.append(('pre_%s_%s_%s' % (hk, tag, where), src, [x]))
     return out
